@@ -36,6 +36,10 @@ pub struct Elem {
     pub to: Option<AttrVal>,
     #[serde(default)]
     pub name: Option<AttrVal>,
+    /// the closing tag carries a remark after the name (`</tag end-of-campaign>`), which the
+    /// parser ignores
+    #[serde(default)]
+    pub close_remark: bool,
     /// the opening tag starts with the start delimiter written twice (the tag grammar strips
     /// every repetition)
     #[serde(default)]
@@ -267,7 +271,9 @@ impl Elem {
     fn close_tag(&self, doc: &Doc) -> String {
         let tight_ok = doc.ds.ends_with('<') && doc.de.starts_with('>');
         let sp = if self.style & 2 != 0 || !tight_ok { " " } else { "" };
-        format!("{}{}/{}{}{}", doc.ds, sp, self.tag_name(doc), sp, doc.de)
+        let remark = if self.close_remark { " end-of-block" } else { "" };
+        let sp2 = if self.close_remark && sp.is_empty() { " " } else { sp };
+        format!("{}{}/{}{}{}{}", doc.ds, sp, self.tag_name(doc), remark, sp2, doc.de)
     }
 }
 
@@ -494,6 +500,7 @@ impl Doc {
                 c
             }));
             variants.push(Box::new(|e| std::mem::take(&mut e.double_ds)));
+            variants.push(Box::new(|e| std::mem::take(&mut e.close_remark)));
             variants.push(Box::new(|e| e.inline_child.take().is_some()));
             variants.push(Box::new(|e| e.inline_next.take().is_some()));
             variants.push(Box::new(|e| e.wrapper_inline2.take().is_some()));
@@ -741,6 +748,7 @@ impl<'a, 'b> DocGen<'a, 'b> {
             name,
             to_dup: None,
             double_ds: false,
+            close_remark: false,
             skip: self.p.allow_skip && self.rng.chance(1, 12),
             unwrap: None,
             indent: indent.to_string(),
@@ -803,6 +811,7 @@ impl<'a, 'b> DocGen<'a, 'b> {
             name,
             to_dup: None,
             double_ds,
+            close_remark: self.rng.chance(1, 15),
             skip,
             unwrap: None,
             indent: indent.clone(),
